@@ -47,19 +47,34 @@ const unionKey = "keep_unknown_fields: union carrying an unknown member cannot b
 
 // cataloguePair: the minimal pair, identical for every seed.
 //
-//	old: union U {1: i32 a}                 struct S {1: i32 x, 2: optional U u}
-//	new: union U {1: i32 a, 2: string b}    struct S {1: i32 x, 2: optional U u, 3: optional string y}
+//	old: union U {1: i32 a}                 struct E {1: i32 k}
+//	     struct S {1: i32 x, 2: optional U u, 4: optional set<E> st, 5: optional list<E> ls, 6: optional map<i32,E> mp}
+//	new: union U {1: i32 a, 2: string b}    struct E {1: i32 k, 2: i32 w = 10, 3: string tag = "none", 4: list<i32> dims = [1, 2]}
+//	     struct S {… , 3: optional string y}
 func cataloguePair() (*idlgen.Program, *idlgen.Program) {
 	mk := func(n bool) *idlgen.Program {
 		u := &idlgen.Struct{Kind: 'u', Name: "U", Fields: []*idlgen.Field{{ID: 1, HasID: true, Name: "a", Req: idlgen.Optional, Type: base(idlgen.I32)}}}
 		s := &idlgen.Struct{Kind: 's', Name: "S", Fields: []*idlgen.Field{
 			{ID: 1, HasID: true, Name: "x", Req: idlgen.Default, Type: base(idlgen.I32)},
 			{ID: 2, HasID: true, Name: "u", Req: idlgen.Optional, Type: &idlgen.Type{Kind: idlgen.Named, Named: &idlgen.NamedRef{File: 0, Name: "U"}}}}}
+		e := &idlgen.Struct{Kind: 's', Name: "E", Fields: []*idlgen.Field{{ID: 1, HasID: true, Name: "k", Req: idlgen.Default, Type: base(idlgen.I32)}}}
+		en := &idlgen.Type{Kind: idlgen.Named, Named: &idlgen.NamedRef{File: 0, Name: "E"}}
 		if n {
 			u.Fields = append(u.Fields, &idlgen.Field{ID: 2, HasID: true, Name: "b", Req: idlgen.Optional, Type: base(idlgen.String)})
 			s.Fields = append(s.Fields, &idlgen.Field{ID: 3, HasID: true, Name: "y", Req: idlgen.Optional, Type: base(idlgen.String)})
+			one := &idlgen.Const{Kind: idlgen.CInt, Text: "1", Val: values.Int(1)}
+			two := &idlgen.Const{Kind: idlgen.CInt, Text: "2", Val: values.Int(2)}
+			e.Fields = append(e.Fields,
+				&idlgen.Field{ID: 2, HasID: true, Name: "w", Req: idlgen.Default, Type: base(idlgen.I32), Default: &idlgen.Const{Kind: idlgen.CInt, Text: "10", Val: values.Int(10)}},
+				&idlgen.Field{ID: 3, HasID: true, Name: "tag", Req: idlgen.Default, Type: base(idlgen.String), Default: &idlgen.Const{Kind: idlgen.CString, Text: "none", Quote: '"', Val: values.Str("none")}},
+				&idlgen.Field{ID: 4, HasID: true, Name: "dims", Req: idlgen.Default, Type: &idlgen.Type{Kind: idlgen.List, Elem: base(idlgen.I32)},
+					Default: &idlgen.Const{Kind: idlgen.CList, Sep: ",", Items: []*idlgen.Const{one, two}, Val: values.List(values.Int(1), values.Int(2))}})
 		}
-		return &idlgen.Program{Files: []*idlgen.File{{Path: "cat.thrift", GoNS: "cat", Structs: []*idlgen.Struct{u, s}}}}
+		s.Fields = append(s.Fields,
+			&idlgen.Field{ID: 4, HasID: true, Name: "st", Req: idlgen.Optional, Type: &idlgen.Type{Kind: idlgen.Set, Elem: en}},
+			&idlgen.Field{ID: 5, HasID: true, Name: "ls", Req: idlgen.Optional, Type: &idlgen.Type{Kind: idlgen.List, Elem: en}},
+			&idlgen.Field{ID: 6, HasID: true, Name: "mp", Req: idlgen.Optional, Type: &idlgen.Type{Kind: idlgen.Map, Key: base(idlgen.I32), Elem: en}})
+		return &idlgen.Program{Files: []*idlgen.File{{Path: "cat.thrift", GoNS: "cat", Structs: []*idlgen.Struct{u, e, s}}}}
 	}
 	return mk(false), mk(true)
 }
@@ -280,6 +295,7 @@ func runPairs(repo, work string, r *vl.Rng, npairs, nvalues int, out *vl.Out) (*
 			p.fixed = true
 		} else {
 			p.old = idlgen.Generate(r, cfg)
+			addHolders(r, p.old, out.Count)
 			p.old.Stats(out.Count)
 			p.new, p.edits = evolve(r, p.old, 2+r.Intn(6), out.Count)
 		}
@@ -366,13 +382,25 @@ func runPairs(repo, work string, r *vl.Rng, npairs, nvalues int, out *vl.Out) (*
 			nv := nvalues
 			var vals []*values.Value
 			if p.fixed {
-				if st.Name == "U" {
+				el := func(k, w int64, tag string, dims ...int64) *values.Value {
+					d := values.List()
+					for _, x := range dims {
+						d.E = append(d.E, values.Int(x))
+					}
+					return values.Record(values.Int(k), values.Int(w), values.Str(tag), d)
+				}
+				switch st.Name {
+				case "U":
 					vals = []*values.Value{values.Record(values.Nil(), values.Str("hi")), values.Record(values.Int(5), values.Nil())}
-				} else {
+				case "E":
+					vals = []*values.Value{el(1, 7, "t", 3), el(2, 10, "none", 1, 2)}
+				default:
+					n := values.Nil
 					vals = []*values.Value{
-						values.Record(values.Int(1), values.Record(values.Int(5), values.Nil()), values.Str("z")),
-						values.Record(values.Int(2), values.Record(values.Nil(), values.Str("hi")), values.Nil()),
-						values.Record(values.Int(3), values.Nil(), values.Str("only-added"))}
+						values.Record(values.Int(1), values.Record(values.Int(5), n()), values.Str("z"), n(), n(), n()),
+						values.Record(values.Int(2), values.Record(n(), values.Str("hi")), n(), n(), n(), n()),
+						values.Record(values.Int(3), n(), values.Str("only-added"), n(), n(), n()),
+						values.Record(values.Int(4), n(), n(), values.Set(el(1, 7, "a", 9), el(2, 8, "b")), values.List(el(3, 0, "", 5)), values.Map(values.Int(1), el(4, 1, "c", 6)))}
 				}
 			} else {
 				for k := 0; k < nv; k++ {
@@ -453,6 +481,53 @@ func runPairs(repo, work string, r *vl.Rng, npairs, nvalues int, out *vl.Out) (*
 		return b, err
 	}
 	record(rl, ra)
+	// new reads old: the OLD code writes the projected value; the NEW code (plain and keep) reads these bytes and
+	// every added field — at every nesting level, in every element of every container — must hold its initial
+	// value: the declared default, else the zero value
+	var owl []string
+	var owc []*chainRun
+	seenW := map[string]bool{}
+	for _, c := range chains {
+		k := fmt.Sprintf("%d/%d/%p", c.p.idx, c.sidx, c.v)
+		if seenW[k] || c.uum {
+			continue
+		}
+		seenW[k] = true
+		po := project(c.p.newS, c.p.oldS, c.sidx, c.norm)
+		owl = append(owl, fmt.Sprintf("W %s:%d %s", c.p.units[roleOldPlain].Key, c.sidx, po.String()))
+		owc = append(owc, c)
+	}
+	owa, err := b.RunLines(owl)
+	if err != nil {
+		return b, err
+	}
+	record(owl, owa)
+	var nrl []string
+	type nrcase struct {
+		c    *chainRun
+		role int
+		bo   []byte
+	}
+	var nrcs []nrcase
+	for i, c := range owc {
+		if !strings.HasPrefix(owa[i], "ok ") {
+			out.Count("b.oldw." + strings.Fields(owa[i])[0])
+			continue
+		}
+		bo, err := hex.DecodeString(strings.TrimPrefix(owa[i][3:], "-"))
+		if err != nil {
+			continue
+		}
+		for _, role := range []int{roleNewPlain, roleNewKeep} {
+			nrl = append(nrl, fmt.Sprintf("R %s:%d %s", c.p.units[role].Key, c.sidx, hexOrDash(bo)))
+			nrcs = append(nrcs, nrcase{c, role, bo})
+		}
+	}
+	nra, err := b.RunLines(nrl)
+	if err != nil {
+		return b, err
+	}
+	record(nrl, nra)
 	fails, shrinks := 0, 0
 	report := func(c *chainRun, what, op, ans string, known bool) {
 		fails++
@@ -497,6 +572,28 @@ func runPairs(repo, work string, r *vl.Rng, npairs, nvalues int, out *vl.Out) (*
 			out.Count("b.harness.projection-disagrees-with-refcodec")
 		}
 		out.Count("b.oracle.ok.R")
+	}
+	for i, rc := range nrcs {
+		c := rc.c
+		out.Count("b.op.R.new-reads-old")
+		want := resetAdded(c.p.newS, c.p.oldS, c.sidx, c.norm)
+		if !strings.HasPrefix(nra[i], "ok ") {
+			report(c, "new code ("+roleName[rc.role]+") cannot read what the old code wrote", nrl[i], nra[i], false)
+			continue
+		}
+		got, err := values.Parse(nra[i][3:])
+		if err != nil {
+			report(c, "unparsable dump", nrl[i], nra[i], false)
+			continue
+		}
+		if !refcodec.Equal(got, want) {
+			report(c, "new code ("+roleName[rc.role]+") read old data as "+got.String()+"; with every added field at its declared default / zero value it is "+want.String(), nrl[i], nra[i], false)
+			continue
+		}
+		if ref, err := refcodec.Decode(c.p.newS, c.sidx, rc.bo); err != nil || !refcodec.Equal(ref, want) {
+			out.Count("b.harness.reset-disagrees-with-refcodec")
+		}
+		out.Count("b.oracle.ok.R.new-reads-old")
 	}
 	for stage := 0; stage < 3; stage++ {
 		var hl []string
